@@ -1252,6 +1252,15 @@ class TLSConnection(TLSRecordLayer):
                         "Server responded with invalid Heartbeat extension"):
                     yield result
             self.heartbeat_supported = True
+        # the list of formats is used by the (EC)DHE key exchange
+        # (an extension without payload is parsed to None)
+        ec_formats_ext = serverHello.getExtension(
+            ExtensionType.ec_point_formats)
+        if ec_formats_ext and not ec_formats_ext.formats:
+            for result in self._sendError(
+                    AlertDescription.decode_error,
+                    "Empty ec_point_formats extension in Server Hello"):
+                yield result
         size_limit_ext = serverHello.getExtension(
             ExtensionType.record_size_limit)
         if size_limit_ext:
@@ -1319,8 +1328,20 @@ class TLSConnection(TLSRecordLayer):
                                                "an (EC)DH group")
         if sr_kex:
             sr_kex = sr_kex.server_share
+            # extension without payload is parsed to None
+            if sr_kex is None:
+                for result in self._sendError(
+                        AlertDescription.decode_error,
+                        "Empty key_share extension in Server Hello"):
+                    yield result
             self.ecdhCurve = sr_kex.group
             cl_key_share_ex = clientHello.getExtension(ExtensionType.key_share)
+            if cl_key_share_ex is None:
+                for result in self._sendError(
+                        AlertDescription.unsupported_extension,
+                        "Server sent key_share extension without one in "
+                        "client hello"):
+                    yield result
             cl_kex = next((i for i in cl_key_share_ex.client_shares
                            if i.group == sr_kex.group), None)
             if cl_kex is None:
@@ -1336,6 +1357,23 @@ class TLSConnection(TLSRecordLayer):
         resuming = False
         if sr_psk:
             clPSK = clientHello.getExtension(ExtensionType.pre_shared_key)
+            if clPSK is None:
+                for result in self._sendError(
+                        AlertDescription.unsupported_extension,
+                        "Server sent pre_shared_key extension without one in "
+                        "client hello"):
+                    yield result
+            # extension without payload is parsed to None
+            if sr_psk.selected is None:
+                for result in self._sendError(
+                        AlertDescription.decode_error,
+                        "Empty pre_shared_key extension in Server Hello"):
+                    yield result
+            if sr_psk.selected >= len(clPSK.identities):
+                for result in self._sendError(
+                        AlertDescription.illegal_parameter,
+                        "Server selected PSK identity we did not offer"):
+                    yield result
             ident = clPSK.identities[sr_psk.selected]
             psk = [i[1] for i in settings.pskConfigs if i[0] == ident.identity]
             if psk:
